@@ -343,6 +343,19 @@ func (x *Exec) specCall(c *SpecCtx, e *Expr) (*Val, error) {
 			return scalar(mk("to_real", SReal, as[0].T), nil), nil
 		}
 		return as[0], nil
+	case "implements":
+		// implements(e, "pkg.Iface"): the comma-ok result of the interface assertion e.(pkg.Iface)
+		if len(e.Args) != 2 || e.Args[1].Kind != "str" {
+			return nil, fmt.Errorf("implements(e, \"pkg.Iface\")")
+		}
+		v, err := x.specEval(c, e.Args[0])
+		if err != nil {
+			return nil, err
+		}
+		if v.K != VScalar || v.T.S != SAny {
+			return nil, fmt.Errorf("implements: interface value expected")
+		}
+		return scalar(x.ufApp("implements."+sanitize(e.Args[1].Name), SBool, v.T), types.Typ[types.Bool]), nil
 	case "ext2":
 		// ext2("pkg.Func", "$i", args...): result i of a multi-result deterministic external function
 		if len(e.Args) < 2 || e.Args[0].Kind != "str" || e.Args[1].Kind != "str" {
@@ -485,6 +498,22 @@ func (x *Exec) specCall(c *SpecCtx, e *Expr) (*Val, error) {
 		x.D.declareFun("uf.hex", []Sort{SStr}, SStr)
 		x.D.declareFun("uf.hexvalid", []Sort{SStr}, SBool)
 		return scalar(x.ufApp("hexdec", SStr, as[0].T), nil), nil
+	case "b64decOf", "b64validOf", "b64Of":
+		as, err := evalArgs()
+		if err != nil {
+			return nil, err
+		}
+		x.axiomsOn["b64"] = true
+		x.D.declareFun("uf.b64", []Sort{SStr}, SStr)
+		x.D.declareFun("uf.b64dec", []Sort{SStr}, SStr)
+		x.D.declareFun("uf.b64valid", []Sort{SStr}, SBool)
+		switch e.Name {
+		case "b64validOf":
+			return scalar(x.ufApp("b64valid", SBool, as[0].T), types.Typ[types.Bool]), nil
+		case "b64Of":
+			return scalar(x.ufApp("b64", SStr, as[0].T), types.Typ[types.String]), nil
+		}
+		return scalar(x.ufApp("b64dec", SStr, as[0].T), nil), nil
 	case "sha256Of":
 		as, err := evalArgs()
 		if err != nil {
